@@ -205,8 +205,10 @@ def check_roundtrip(path: str, model, expected: dict, check_ir_load: bool = True
                     continue
                 if got != want:
                     n0 = len(want) - len(want) % 4096
+                    n1 = (len(want) - 1) // 4096 * 4096 if want else 0   # start of the tensor's last 4 KiB block, even when that block is full
                     probs.append({"reader": "raw", "dtype": str(t.dtype), "tensor": f"{TAG.get(g.name, g.name)}:{tp.name}",
-                                  "confined_to_final_partial_block": got[:n0] == want[:n0], "what":
+                                  "confined_to_final_partial_block": got[:n0] == want[:n0],
+                                  "confined_to_final_full_block": len(want) % 4096 == 0 and got[:n1] == want[:n1], "what":
                                   f"{tp.name}: external bytes differ (got {len(got)} bytes, want {len(want)}; file size {os.path.getsize(fp)})"})
             else:
                 try:
@@ -611,6 +613,8 @@ def _roundtrip_violations(probs: list[dict], cls: str) -> list[dict]:
                     "raw_damaged": sorted({p["tensor"] for p in ps if "tensor" in p}),
                     "meta_lost_only": all(p.get("meta") for p in ps),
                     "raw_confined": all(p.get("confined_to_final_partial_block", False) for p in ps if p["reader"] == "raw"),
+                    "raw_confined_full": all(p.get("confined_to_final_partial_block", False) or p.get("confined_to_final_full_block", False)
+                                             for p in ps if p["reader"] == "raw"),
                     "readers": sorted({p["reader"] for p in ps}),
                     "dtypes": sorted({p.get("dtype", "") for p in ps} - {""})})
     return out
